@@ -850,13 +850,14 @@ fn render_into(rs: &[R], env: &Env, count_tys: &BTreeMap<String, (NumTy, Num)>, 
                 }
             }
             R::Comp { name, inner } => {
-                out.push('<');
+                // distinct brackets: a component is not the same thing as literal "<b>" text
+                out.push('\u{2039}');
                 out.push_str(name);
-                out.push('>');
+                out.push('\u{203a}');
                 render_into(inner, env, count_tys, out)?;
-                out.push_str("</");
+                out.push_str("\u{2039}/");
                 out.push_str(name);
-                out.push('>');
+                out.push('\u{203a}');
             }
             R::Range { count, ty, branches } => {
                 let n = env.count_of(count).ok_or_else(|| RenderErr::NoCount(count.clone()))?;
